@@ -138,8 +138,20 @@ class Engine:
         self.fdef = fdef
         self.fname = contract.qualname + (("@" + contract.extra["variant"]) if contract.extra.get("variant") else "")
         self.classctx = classctx
-        self.loop_ordinal = 0
-        self.call_ordinals = {}
+        # loop / call ordinals are SYNTACTIC (position in the source), not per explored path
+        self.loop_ord = {}
+        for nd in ast.walk(fdef):
+            if isinstance(nd, (ast.For, ast.While)):
+                self.loop_ord[id(nd)] = None
+        for k_, nd in enumerate(sorted((n for n in ast.walk(fdef) if isinstance(n, (ast.For, ast.While))),
+                                       key=lambda n: (n.lineno, n.col_offset))):
+            self.loop_ord[id(nd)] = k_
+        self.call_ord = {}
+        seen = {}
+        for nd in sorted((n for n in ast.walk(fdef) if isinstance(n, ast.Call)), key=lambda n: (n.lineno, n.col_offset)):
+            nm = nd.func.attr if isinstance(nd.func, ast.Attribute) else (nd.func.id if isinstance(nd.func, ast.Name) else "?")
+            self.call_ord[id(nd)] = seen.get(nm, 0)
+            seen[nm] = seen.get(nm, 0) + 1
         self.loop_x, self.loop_k, self.loop_it, self.loop_pre = {}, {}, {}, {}
         self.lemma_uses = []
         self._comp_ord = 0
@@ -189,6 +201,8 @@ class Engine:
         pre, post = NS(self.pre_env), NS(st.env)
         if out.kind in ("normal", "return"):
             res = out.value if out.kind == "return" and out.value is not None else PyNone()
+            if c.result is not None:
+                res = self.coerce(res, c.result, Ctx(self, st, node), "result")
             for label, ens in c.ensures:
                 self.emit(f"post:{label}", "post", st, ens(pre, post, res), getattr(node, "lineno", 0))
             for exc, spec in c.raises.items():
@@ -371,8 +385,7 @@ class Engine:
 
     # ---- loops ------------------------------------------------------------------
     def _loopspec(self, node, anchor_src):
-        ordn = self.loop_ordinal
-        self.loop_ordinal += 1
+        ordn = self.loop_ord[id(node)]
         spec = self.c.loops.get(ordn)
         if spec is None:
             raise StaleContract(f"{self.fname}: loop #{ordn} ({anchor_src!r}, line {node.lineno}) has no invariant")
@@ -905,6 +918,14 @@ class Engine:
         return args, kwargs
 
     def call_method(self, recv, name, e, cx, recv_node):
+        if isinstance(recv, PyOpt) and hasattr(recv.value, "m_" + name):
+            # method of the payload of an Optional: AttributeError when it is None
+            cx.raise_if(recv.is_none, "AttributeError")
+            args, kwargs = self.eval_args(e, cx)
+            res, new_inner = getattr(recv.value, "m_" + name)(cx, *args)
+            if new_inner is not None:
+                self.assign(_as_store(recv_node), PyOpt(recv.is_none, new_inner, recv.ty.inner), cx)
+            return res
         # 1. library model on the value itself
         m = getattr(recv, "m_" + name, None)
         if m is not None:
@@ -960,8 +981,7 @@ class Engine:
         for p in pnames:
             actual[p] = self.coerce(actual[p], c.params[p], cx, f"{c.qualname}.{p}")
         # ghost arguments
-        ordn = self.call_ordinals.get(c.qualname, 0)
-        self.call_ordinals[c.qualname] = ordn + 1
+        ordn = self.call_ord.get(id(node), 0)
         if c.ghost:
             g = self.c.call_ghost.get((c.qualname, ordn)) or self.c.call_ghost.get((c.qualname, None))
             # ghost *outputs* are existential witnesses: fresh on the caller side unless supplied
